@@ -39,13 +39,13 @@ theorem prepW_norm (hp : PreC j) (hpick : PickOut h j.template (j.collisionCount
     NormC h (prepW h j) := by
   have hl := prepW_listed hp hpick
   refine ⟨⟨hp.spec.paused, hp.spec.sel, hp.spec.del, hp.spec.rep, hp.spec.r0, hp.spec.strat, hp.spec.lim⟩,
-    ?_, ?_, ?_, ?_, ?_, hp.smallR, hp.smallB, hp.gone⟩
+    ?_, ?_, ?_, ?_, ?_, hp.smallR, hp.gone⟩
   · intro c hc
     have hc' : c ∈ j.pods.map own := hc
     rw [List.mem_map] at hc'
     obtain ⟨c0, hc0, rfl⟩ := hc'
-    obtain ⟨_, a2, a3, a4, a5, a6, a7, a8⟩ := hp.pods c0 hc0
-    exact ⟨rfl, a2, a3, a4, a5, a6, a7, a8⟩
+    obtain ⟨_, a2, a3, a4, a5, a7, a8⟩ := hp.pods c0 hc0
+    exact ⟨rfl, a2, a3, a4, a5, a7, a8⟩
   · show ((j.pods.map own).map (·.pod.ord)).Nodup
     rw [List.map_map]
     exact hp.ords
